@@ -13,7 +13,7 @@ EXPLANATION = ('Symbolic execution of the real formatter with the WHOLE Formatte
                'string bodies. Checked: parse-equivalence of output and input (decoded string values solver-compared), comments preserved in order, idempotence.')
 ASSUMPTIONS = ['end_of_line=lf, indent_before_comments one space, use_editor_config off (editorconfig discovery is file I/O)', 'max_line_length 0..40, tab_width 1..8, indent_by: empty | 1 space | 4 spaces | tab',
                'programs: the listed corpus and templates; string bodies <= 2 characters over {a, quote, backslash, n, newline, @}']
-OUT = 'editorconfig discovery and match_path, recursive/in-place file handling, --check-only exit code plumbing, programs beyond the corpus/templates, non-ASCII'
+OUT = 'editorconfig discovery and match_path, recursive/in-place file handling, programs beyond the corpus/templates, non-ASCII'
 MANIFEST = dict(
     text='Bounded symbolic decision over ALL formatter configurations at once (symbolic config) for each program of the corpus and each template with symbolic string bodies: '
          'same program after formatting, same comments, format(format(x)) == format(x).',
@@ -236,6 +236,49 @@ def ob_atoms(natoms):
     return h
 
 
+# ---------------------------------------------------------------- meson format --check-only / --check-diff over several files (the real mformat.run)
+CLI_TEXTS = ["x = 1\n", "x=1\n", "y = f(a, b)\n", "y = f( a,b )\n", "z = [1, 2]\n", "z = [1,2,]\n"]
+
+
+class SrcFile:
+    """stands for a pathlib.Path naming one build file: what mformat.run asks of it (the engine does not instrument pathlib)"""
+    def __init__(self, name, text): self.name = name; self.text = text; self.parent = Path('/x') / name
+    def is_dir(self): return False
+    def read_text(self, encoding=None): return self.text
+    def as_posix(self): return '/x/%s/meson.build' % self.name
+    def __str__(self): return self.as_posix()
+
+
+def ob_check_mode():
+    """`meson format --check-only / --check-diff` over 1-3 files (the real run() loop, the real Formatter): the exit status is 1 iff formatting would change
+    SOME file - whichever position it has in the list - and --check-diff prints a diff for exactly the files that would change"""
+    def h():
+        import io, contextlib, argparse
+        n = 1 + choose(3, 'nfiles')
+        texts = [CLI_TEXTS[choose(len(CLI_TEXTS), 'file%d' % i)] for i in range(n)]
+        diffmode = choose(2, 'mode') == 1
+        srcs = [SrcFile('d%d' % i, t) for i, t in enumerate(texts)]
+        opts = argparse.Namespace(output=None, sources=list(srcs), recursive=False, subprojects=False, inplace=False, check_only=not diffmode, check_diff=diffmode,
+                                  source_file_path=None, editor_config=False, configuration=None)
+        saved = MF.get_meson_format
+        MF.get_meson_format = lambda s: None
+        buf = io.StringIO()
+        try:
+            with contextlib.redirect_stdout(buf):
+                rc = MF.run(opts)
+        finally:
+            MF.get_meson_format = saved
+        ref = MF.Formatter(None, False, False)
+        would_change = [ref.format(t, Path('/x/meson.build')) != t for t in texts]
+        check(rc == (1 if any(would_change) else 0), 'exit status 1 iff formatting would change some file')
+        if diffmode:
+            out = buf.getvalue()
+            for s, w in zip(srcs, would_change):
+                check((('--- ' + s.as_posix()) in out) == w, '--check-diff prints a diff for exactly the files that would change')
+        cover('differs' if any(would_change) else 'clean')
+    return h
+
+
 def obligations(tier):
     q = tier == 'quick'
     out = []
@@ -253,4 +296,5 @@ def obligations(tier):
         for n in ((1, 2) if q else (1, 2, 3)):
             out.append(Obligation('template[%d,%d]' % (k, n), ob_template(k, n), dict(template=TEMPLATES[k]('<BODY>'), body_len=n, alphabet=SB, configuration='fully symbolic'),
                                   labels=('done',), max_paths=5000000, classify=classify))
+    out.append(Obligation('check-mode', ob_check_mode(), dict(files='1-3 out of %d texts (3 formatted, 3 not)' % len(CLI_TEXTS), mode='--check-only | --check-diff', real='mformat.run, Formatter.format'), labels=('differs', 'clean')))
     return out
